@@ -157,7 +157,10 @@ def run_public(acc, pi, tier, seed, only=None):
                     continue
                 total = {'1': 1.0, 'N': N, 'None': None}[tmode]
                 T = total if total is not None else ref_total(dense)
-                data = Dataset(pd.DataFrame(frame0.copy(), columns=ATTRS), dom)
+                # every third configuration: the public dataset carries weights of its own (a 0/1 mask); the reference of the
+                # property is still the UNIFORMLY weighted public data
+                pubw = np.array([float((i_ + pi) % 2) for i_ in range(len(pub))]) if (k_ % 3 == 0 and len(pub) >= 2) else None
+                data = Dataset(pd.DataFrame(frame0.copy(), columns=ATTRS), dom, pubw)
                 eng = PublicInference(data)
                 with M.quiet():
                     est = eng.estimate([(Q.copy(), y.copy(), s, cl) for Q, y, s, cl in ms], total=total)
